@@ -129,6 +129,7 @@ func (s *sink) export(ctx context.Context, items []ItemOut) error {
 	}
 	key := combo(r.Sc.Cfg.MetadataKeys, seen)
 	ctxReq, _ := ctx.Value(ctxKey{}).(string)
+	ctxErrAtBegin := ctx.Err() // outside the log mutex: a hooked context re-enters the monitor
 	r.mu.Lock()
 	n := r.exports
 	r.exports++
@@ -144,7 +145,7 @@ func (s *sink) export(ctx context.Context, items []ItemOut) error {
 		ferr = fmt.Errorf("export-%d-failed", n)
 		r.failErrs[n] = ferr
 	}
-	e := Ev{Kind: "export_begin", Export: n, Items: items, Size: len(items), CtxReq: ctxReq, CtxErr: ctx.Err(), MetaSeen: seen,
+	e := Ev{Kind: "export_begin", Export: n, Items: items, Size: len(items), CtxReq: ctxReq, CtxErr: ctxErrAtBegin, MetaSeen: seen,
 		SpanCtx: trace.SpanContextFromContext(ctx), InFlight: r.inflt[key], InFlightG: r.infltG, Latency: lat, Combo: key}
 	e.Seq = len(r.log)
 	e.VT = r.vt()
@@ -175,10 +176,11 @@ func (s *sink) export(ctx context.Context, items []ItemOut) error {
 	if err == nil && ferr != nil {
 		err = ferr
 	}
+	ctxErrAtEnd := ctx.Err()
 	r.mu.Lock()
 	r.inflt[key]--
 	r.infltG--
-	e2 := Ev{Kind: "export_end", Export: n, Err: err, CtxErr: ctx.Err(), DoneFired: done, Combo: key}
+	e2 := Ev{Kind: "export_end", Export: n, Err: err, CtxErr: ctxErrAtEnd, DoneFired: done, Combo: key}
 	e2.Seq = len(r.log)
 	e2.VT = r.vt()
 	r.log = append(r.log, e2)
@@ -280,6 +282,19 @@ func (r *Run) hook(name string, ctx context.Context) {
 	if d > 0 {
 		time.Sleep(d)
 	}
+}
+
+// hookCtx is a request context whose Err() returns its (possibly stale by then) answer after
+// passing through the "ctx.Err" hook point.
+type hookCtx struct {
+	context.Context
+	r *Run
+}
+
+func (h *hookCtx) Err() error {
+	e := h.Context.Err()
+	h.r.hook("ctx.Err", nil)
+	return e
 }
 
 // ---------------------------------------------------------------- execution
@@ -387,6 +402,9 @@ func (r *Run) Exec() (stuck []string, err error) {
 				spans = append(spans, c.span)
 			}
 			c.ctx, c.cancel = context.WithCancel(base)
+			if sc.CtxHooks {
+				c.ctx = &hookCtx{Context: c.ctx, r: r}
+			}
 			if spec.CtxGroup >= 0 {
 				groupCtx[gk] = c
 			}
